@@ -381,6 +381,10 @@ pub enum Callee {
     NativeBadArg,
     /// fails through the t1_fail native two script calls below the callee's own frame
     FailsDeep,
+    /// declares n locals and one more, lets two closures that capture that last local escape into
+    /// globals, then fails; the host swallows the failure and the caller calls the closures once
+    /// its own locals live where the callee's did
+    FailsLeaky(usize),
 }
 
 #[derive(Clone, Debug, Serialize, Deserialize)]
@@ -430,7 +434,8 @@ fn gen_workload(rng: &mut Rng) -> Workload {
         typed.push(TypedCall { native: "t0".into(), kinds: "".into(), args: vec![], path: rng.below(2) as u8 });
     }
     let reentry = if rng.chance(3, 5) {
-        let callee = match rng.below(11) {
+        let callee = match rng.below(12) {
+            11 => Callee::FailsLeaky(rng.usize(12)),
             10 => Callee::FailsDeep,
             0 => Callee::RetParam(0),
             1 => Callee::RetParam(1),
@@ -450,7 +455,8 @@ fn gen_workload(rng: &mut Rng) -> Workload {
             _ => rng.usize(3),
         };
         let args = (0..nargs).map(|_| gen_arg(rng, 'v')).filter(|a| a.func_kind().is_none()).collect::<Vec<_>>();
-        Some(ReCase { callee, args, swallow: rng.chance(1, 3) })
+        let leaky = matches!(callee, Callee::FailsLeaky(_));
+        Some(ReCase { callee, args: if leaky { vec![] } else { args }, swallow: leaky || rng.chance(1, 3) })
     } else {
         None
     };
@@ -463,6 +469,7 @@ fn gen_workload(rng: &mut Rng) -> Workload {
         let want = match rc.callee {
             Callee::RetParam(_) => 2,
             Callee::NativeValue | Callee::Deep | Callee::RetEarly | Callee::ClosureCapture | Callee::NativeBadArg => 1,
+            Callee::FailsLeaky(_) => 0,
             _ => rc.args.len(),
         };
         if matches!(rc.callee, Callee::NativeBadArg) {
@@ -472,6 +479,10 @@ fn gen_workload(rng: &mut Rng) -> Workload {
             rc.args.push(Arg::Int(5 + rc.args.len() as i64));
         }
         rc.args.truncate(want.max(rc.args.len().min(2)));
+        if matches!(rc.callee, Callee::FailsLeaky(_)) {
+            rc.args.clear();
+            rc.swallow = true;
+        }
     }
     w
 }
@@ -487,6 +498,19 @@ fn build_program(w: &Workload) -> Module {
     let mut m = Module::default();
     // the innermost function does the calls
     let mut inner = Function::default();
+    let leaky = match w.reentry.as_ref().map(|r| &r.callee) {
+        Some(Callee::FailsLeaky(n)) => Some(*n),
+        _ => None,
+    };
+    if let Some(n) = leaky {
+        // the callee runs (and fails) before the caller has declared a single local: the locals
+        // declared below take the slots the dead callee's locals had
+        let stub = w.reentry.as_ref().unwrap().stub();
+        inner.cards.push(Card::set_global_var(
+            "re_result",
+            Card::call_native(stub, vec![c(CardBody::Function(format!("cb_leaky{n}")))]),
+        ));
+    }
     // tables used as arguments: tbl0..tbl3 with values 1,4,7,..
     for n in 0..4usize {
         inner.cards.push(Card::set_var(
@@ -507,7 +531,11 @@ fn build_program(w: &Workload) -> Module {
         };
         inner.cards.push(Card::set_global_var(format!("r{k}"), call));
     }
-    if let Some(rc) = &w.reentry {
+    if leaky.is_some() {
+        // the closures the dead callee left behind: one assigns the captured variable, one reads it
+        inner.cards.push(Card::set_global_var("leaky_set", Card::dynamic_call(Card::read_var("g_setter"), vec![])));
+        inner.cards.push(Card::set_global_var("leaky_get", Card::dynamic_call(Card::read_var("g_getter"), vec![])));
+    } else if let Some(rc) = &w.reentry {
         let callee_card: Card = match rc.callee {
             Callee::RetParam(i) => c(CardBody::Function(format!("cb_ret{}", i + 1))),
             Callee::RetEarly => c(CardBody::Function("cb_early".into())),
@@ -524,6 +552,7 @@ fn build_program(w: &Workload) -> Module {
             Callee::Spins => c(CardBody::Function(format!("cb_spin{}", rc.args.len()))),
             Callee::Deep => c(CardBody::Function("cb_deep".into())),
             Callee::NativeBadArg => c(CardBody::NativeFunction("t1_s".into())),
+            Callee::FailsLeaky(_) => unreachable!(),
         };
         let mut args = vec![callee_card];
         args.extend(rc.args.iter().map(|a| a.card()));
@@ -534,9 +563,12 @@ fn build_program(w: &Workload) -> Module {
     inner.cards.push(Card::set_global_var("out_b", Card::read_var("keep_b")));
     inner.cards.push(Card::set_global_var("out_w", Card::read_var("cap_w")));
     inner.cards.push(Card::set_global_var("out_t", Card::read_var("tbl2")));
+    inner.cards.push(Card::set_global_var("out_t0", Card::read_var("tbl0")));
+    inner.cards.push(Card::set_global_var("out_t1", Card::read_var("tbl1")));
+    inner.cards.push(Card::set_global_var("out_t3", Card::read_var("tbl3")));
     inner.cards.push(Card::return_card(Card::scalar_int(5)));
     // ClosureCapture needs frame offset 0: then the calls are made from main directly
-    let need_main = matches!(w.reentry.as_ref().map(|r| &r.callee), Some(Callee::ClosureCapture));
+    let need_main = matches!(w.reentry.as_ref().map(|r| &r.callee), Some(Callee::ClosureCapture | Callee::FailsLeaky(_)));
     let depth = if need_main { 0 } else { w.depth };
     let mut main = Function::default();
     for i in 0..(if need_main { 0 } else { w.pad }) {
@@ -617,6 +649,23 @@ fn build_program(w: &Workload) -> Module {
             Card::set_global_var("spin", Card::scalar_int(1)),
         ]))));
         m.functions.push((format!("cb_spin{n}"), s));
+    }
+    if let Some(n) = leaky {
+        let mut f = Function::default();
+        for i in 0..n {
+            f.cards.push(Card::set_var(format!("fill{i}"), Card::scalar_int(500 + i as i64)));
+        }
+        f.cards.push(Card::set_var("captured", Card::scalar_int(1)));
+        f.cards.push(Card::set_global_var(
+            "g_setter",
+            c(CardBody::Closure(Box::new(Function::default().with_cards(vec![Card::set_var("captured", Card::scalar_int(99))])))),
+        ));
+        f.cards.push(Card::set_global_var(
+            "g_getter",
+            c(CardBody::Closure(Box::new(Function::default().with_cards(vec![Card::return_card(Card::read_var("captured"))])))),
+        ));
+        f.cards.push(Card::set_global_var("x", Card::call_native("t1_fail", vec![Card::scalar_int(1)])));
+        m.functions.push((format!("cb_leaky{n}"), f));
     }
     m.functions.push((
         "cb_failmid".into(),
@@ -726,6 +775,21 @@ fn run_workload(w: &Workload) -> (Option<RunOut>, Vec<(Json, String)>) {
     // ---- oracle: typed calls in order
     let log: Vec<&HostCall> = out.host_log.iter().collect();
     let mut li = 0usize;
+    // entries of the log that are not numbered host calls (the ":after" records)
+    let mut unnumbered = 0usize;
+    if matches!(w.reentry.as_ref().map(|r| &r.callee), Some(Callee::FailsLeaky(_))) {
+        // the leaky callee ran first: the typed calls follow the record of its return
+        match log.iter().position(|c| c.name.ends_with(":after")) {
+            Some(i) => {
+                li = i + 1;
+                unnumbered = 1;
+            }
+            None => {
+                v.push((json!({"inv": "reentry-not-observed"}), format!("the host function did not record its return (run ended with {})", out.result)));
+                return (Some(out), v);
+            }
+        }
+    }
     let mut failed_at: Option<(usize, String)> = None;
     for (k, tc) in w.typed.iter().enumerate() {
         let kinds: Vec<char> = tc.kinds.chars().collect();
@@ -774,7 +838,7 @@ fn run_workload(w: &Workload) -> (Option<RunOut>, Vec<(Json, String)>) {
             v.push((json!({"inv": "parameter-count", "path": path}), format!("call #{k} {} received {} parameters", tc.native, call.args.len())));
         }
         // the returned value is the value of the call card
-        let want_ret = if tc.native == "t1_alloc" { Obs::Str("fresh result".into()) } else { Obs::Int(1000 + (li as i64 - 1)) };
+        let want_ret = if tc.native == "t1_alloc" { Obs::Str("fresh result".into()) } else { Obs::Int(1000 + (li as i64 - 1 - unnumbered as i64)) };
         if out.globals.get(&format!("r{k}")) != Some(&want_ret) && failed_at.is_none() {
             // only meaningful if the run got past this call
             if out.globals.contains_key(&format!("r{k}")) || out.result == "Ok" {
@@ -797,7 +861,8 @@ fn run_workload(w: &Workload) -> (Option<RunOut>, Vec<(Json, String)>) {
         // a swallowed callee failure is not an error of the run; a swallowed Timeout cannot buy
         // more instructions: the run still ends with Timeout
         let expect_err = match rc.callee {
-            Callee::Fails | Callee::FailsDeep | Callee::NativeBadArg if rc.swallow => None,
+            Callee::Fails | Callee::FailsDeep | Callee::NativeBadArg | Callee::FailsLeaky(_) if rc.swallow => None,
+            Callee::FailsLeaky(_) => Some(format!("TaskFailure({stub}):TaskFailure(t1_fail):InvalidArgument")),
             Callee::FailsDeep => Some(format!("TaskFailure({stub}):TaskFailure(t1_fail):InvalidArgument")),
             Callee::NativeBadArg => Some(format!("TaskFailure({stub}):TaskFailure(t1_s):InvalidArgument")),
             Callee::Fails => Some(format!("TaskFailure({stub}):TaskFailure(t1_fail):InvalidArgument")),
@@ -835,7 +900,7 @@ fn run_workload(w: &Workload) -> (Option<RunOut>, Vec<(Json, String)>) {
                     Callee::RetParam(i) => rc.args.get(i).and_then(|a| a.obs()),
                     Callee::RetEarly | Callee::Deep => Some(Obs::Int(42)),
                     Callee::NoReturn => Some(Obs::Nil),
-                    Callee::Fails | Callee::FailsDeep | Callee::NativeBadArg => Some(Obs::Nil),
+                    Callee::Fails | Callee::FailsDeep | Callee::NativeBadArg | Callee::FailsLeaky(_) => Some(Obs::Nil),
                     Callee::ClosureCapture => Some(Obs::Int(11)),
                     Callee::NativeValue => None, // t1_v returns 1000 + index: checked through balance only
                     _ => None,
@@ -857,6 +922,15 @@ fn run_workload(w: &Workload) -> (Option<RunOut>, Vec<(Json, String)>) {
                         v.push((
                             json!({"inv": "reentry-callee-parameters", "callee": callee_kind}),
                             format!("callee pushed {:?} but saw {:?}", rc.args, seen.iter().map(|s| s.args[0].short()).collect::<Vec<_>>()),
+                        ));
+                    }
+                }
+                if let Callee::FailsLeaky(_) = rc.callee {
+                    // the closures share the variable they captured, and it is theirs alone now
+                    if out.globals.get("leaky_get") != Some(&Obs::Int(99)) {
+                        v.push((
+                            json!({"inv": "reentry-escaped-closure-lost-its-variable", "callee": callee_kind}),
+                            format!("a closure that escaped from the failed callee assigned 99 to its captured variable, its sibling reads {:?}", out.globals.get("leaky_get").map(|o| o.short())),
                         ));
                     }
                 }
@@ -901,12 +975,18 @@ fn run_workload(w: &Workload) -> (Option<RunOut>, Vec<(Json, String)>) {
                     && out.globals.get("out_b") == Some(&Obs::Str("keep".into()))
                     && out.globals.get("g_untouched") == Some(&Obs::Int(77))
                     && out.globals.get("out_t") == Arg::Table(vec![1, 4]).obs().as_ref()
+                    && out.globals.get("out_t0") == Arg::Table(vec![]).obs().as_ref()
+                    && out.globals.get("out_t1") == Arg::Table(vec![1]).obs().as_ref()
+                    && out.globals.get("out_t3") == Arg::Table(vec![1, 4, 7]).obs().as_ref()
+                    && (matches!(rc.callee, Callee::ClosureCapture) || out.globals.get("out_w") == Some(&Obs::Int(0)))
                     && out.globals.get("chain") == Some(&Obs::Int(5));
                 if !locals_ok {
                     v.push((
                         json!({"inv": "reentry-caller-state", "callee": callee_kind}),
                         format!(
-                            "after the host call the caller's variables are a={:?} b={:?} untouched={:?} t={:?} chain={:?}",
+                            "after the host call the caller's variables are t0={:?} t1={:?} t3={:?} w={:?} a={:?} b={:?} untouched={:?} t={:?} chain={:?}",
+                            out.globals.get("out_t0").map(|o| o.short()), out.globals.get("out_t1").map(|o| o.short()),
+                            out.globals.get("out_t3").map(|o| o.short()), out.globals.get("out_w").map(|o| o.short()),
                             out.globals.get("out_a").map(|o| o.short()), out.globals.get("out_b").map(|o| o.short()),
                             out.globals.get("g_untouched").map(|o| o.short()), out.globals.get("out_t").map(|o| o.short()),
                             out.globals.get("chain").map(|o| o.short())
@@ -967,7 +1047,9 @@ impl Check for C18 {
          parameter / returning early / returning nothing, a closure capturing and writing caller locals, a native-function value, \
          a failing callee, a callee that spins until the budget expires, or a callee that re-enters twice more; half of the cases \
          with a collection at every allocation point. One re-entering call in three goes through a host function that swallows \
-         its callee's failure (try0/1/2); callees also include a native value failing in its parameter conversion; one case in \
+         its callee's failure (try0/1/2); callees also include a native value failing in its parameter conversion and a callee that lets closures over one \
+         of its locals escape into globals and then fails (the caller declares its locals afterwards, in the slots the dead \
+         callee used, and calls the closures); one case in \
          five with a call stack of depth+1..depth+5 frames. A case is non-trivial if a host stub ran; distinct = distinct workload hash."
             .to_string()
     }
@@ -1057,6 +1139,7 @@ impl Check for C18 {
             "reach:callee:ClosureCapture".into(),
             "reach:callee:NativeValue".into(),
             "reach:callee:Fails".into(),
+            "reach:callee:FailsLeaky".into(),
             "reach:path_0".into(),
             "reach:path_1".into(),
             "fault:collections_forced".into(),
